@@ -3,6 +3,8 @@ package main
 // Materialisation: World -> input files on a private scratch directory.
 
 import (
+	"strconv"
+	"regexp"
 	"fmt"
 	"os"
 	"path/filepath"
@@ -669,6 +671,18 @@ func (w *World) Files(oc *OutputCfg, ww *WeatherWorld) FileSet {
 		}
 	}
 	if w.BadEnt && ww != nil {
+		// a series that ends before the simulation does: at the end of the last-but-one simulated year, or a month early
+		hi := DayOf(w.Cfg.End.Year()-1, 12, 31)
+		if hi <= w.Start()+5 {
+			hi = w.Cfg.End - 30
+		}
+		if hi > w.Start()+5 {
+			for name, content := range ww.Files(w.Cfg.WeatherLayout, w.Cfg.NumHeader, w.FCode+"short", w.eol(), ww.Spec.FirstDay, hi, nil, ";") {
+				fs["weather/wx/"+name] = content
+			}
+		}
+	}
+	if w.BadEnt && ww != nil {
 		gap := w.Start() + (w.Cfg.End-w.Start())/2
 		for name, content := range ww.Files(w.Cfg.WeatherLayout, w.Cfg.NumHeader, w.FCode+"gap", w.eol(), ww.Spec.FirstDay, ww.Spec.LastDay, map[Day]bool{gap: true}, ";") {
 			fs["weather/wx/"+name] = content
@@ -787,6 +801,62 @@ func reducedParamFolder(root, paramDir string, w *World) error {
 			}
 		}
 		os.WriteFile(filepath.Join(dst, "HYPAR.TRU"), []byte(strings.Join(out, "\n")+"\n"), 0o644)
+	}
+	// every other table of this folder differs a little from the shipped one, so that a table parsed once per
+	// session (instead of once per run and folder) changes the results of the lines that run on this folder
+	if b, err := os.ReadFile(filepath.Join(paramDir, "FERTILIZ.TXT")); err == nil {
+		re := regexp.MustCompile(`^(\S+\s+\S+\s+\S+\s+\S+\s+\S+\s+\S+\s+)(\d\.\d\d)`)
+		lines := strings.Split(string(b), "\n")
+		for i, l := range lines {
+			if i == 0 {
+				continue
+			}
+			if m := re.FindStringSubmatch(l); m != nil {
+				v, _ := strconv.ParseFloat(m[2], 64)
+				if v <= 0.9 {
+					lines[i] = m[1] + fmt.Sprintf("%.2f", v+0.07) + l[len(m[0]):] // volatilisation loss
+				}
+			}
+		}
+		os.WriteFile(filepath.Join(dst, "FERTILIZ.TXT"), []byte(strings.Join(lines, "\n")), 0o644)
+	}
+	if b, err := os.ReadFile(filepath.Join(paramDir, "EVAPO.HAU")); err == nil {
+		re := regexp.MustCompile(`0\.(\d)(\d)`)
+		lines := strings.Split(string(b), "\n")
+		for i, l := range lines {
+			if i == 0 || len(l) < 64 {
+				continue
+			}
+			// the twelve monthly factors: + 0.01 each (second decimal 0..8)
+			lines[i] = l[:4] + re.ReplaceAllStringFunc(l[4:64], func(x string) string {
+				if x[3] < '9' {
+					return x[:3] + string(x[3]+1)
+				}
+				return x
+			}) + l[64:]
+		}
+		os.WriteFile(filepath.Join(dst, "EVAPO.HAU"), []byte(strings.Join(lines, "\n")), 0o644)
+	}
+	ents, _ := os.ReadDir(paramDir)
+	for _, e := range ents {
+		n := e.Name()
+		if !strings.HasPrefix(n, "PARAM") {
+			continue
+		}
+		b, err := os.ReadFile(filepath.Join(paramDir, n))
+		if err != nil {
+			continue
+		}
+		ed := cropEdit{Name: "MINTMP", Val: "3.5"}
+		var out string
+		if strings.HasSuffix(n, ".yml") {
+			out, err = editYml(string(b), ed)
+		} else {
+			out, err = editClassic(string(b), ed)
+		}
+		if err == nil {
+			os.WriteFile(filepath.Join(dst, n), []byte(out), 0o644)
+		}
 	}
 	return nil
 }
